@@ -45,7 +45,7 @@ func init() {
 	}})
 }
 
-var p2FixedScenarios = []string{"zero-pivot-255", "zero-pivot-255-b", "insert-at-boundary", "swap-files", "append-garbage", "lost-trailing-zeros", "k0-no-volumes", "damage-no-volumes", "periodic-J"}
+var p2FixedScenarios = []string{"rmdir", "zero-pivot-255", "zero-pivot-255-b", "insert-at-boundary", "swap-files", "append-garbage", "lost-trailing-zeros", "k0-no-volumes", "damage-no-volumes", "periodic-J"}
 
 func p2Cases(id, tier string, seed int64, n int) []core.Case {
 	var cs []core.Case
@@ -154,6 +154,12 @@ func fixedSet(name string) (scen.Set, func(*scen.State, *rand.Rand) []scen.Op, s
 				{Kind: "overwrite", A: 0, Pos: 4 * third, G: []byte{9, 10, 11, 12}},
 			}
 		}, "keep-0-255-256"
+	case "rmdir":
+		s := scen.Set{SliceSize: 8, Blocks: 6, Content: "random", Files: []scen.File{
+			{Name: "a.bin", Data: scen.GenData(rng, "random", 24, 8)},
+			{Name: "sub/deep/b.bin", Data: scen.GenData(rng, "random", 30, 8)},
+		}}
+		return s, func(st *scen.State, r *rand.Rand) []scen.Op { return []scen.Op{{Kind: "delete", A: 1}} }, "keep"
 	case "periodic-J":
 		data := make([]byte, 17)
 		for i := range data {
